@@ -130,7 +130,7 @@ Definition rset_at (m : mem) (fuel rb bre bp bg bsg : nat) (rs : rset) (rests : 
   prog_at m (length m) fuel bre bp (code (rs_prog rs)) (rs_cflg rs).
 
 (* THE THEOREM: the translated rset_find is the model's rset_find_d at the engine's depth.  Hypotheses: the set in memory (rset_at), its
-   tables inside subs[] (rset_tabs_ok: true for every set rset_make builds, TrRsetMake.rset_build_tabs_ok), a program with the static shape
+   tables inside subs[] (rset_tabs_ok: true for every set rset_make builds, TrRsetFind.rset_make_tabs_ok), a program with the static shape
    regcomp guarantees (prog_wf, C11_wf_prog), the line a C string at the start of block bl, grps[] a block of at least 2 * n cells,
    sizes inside int, fuel for the loops; and that the model answers (Ok: no atom read outside the line, no loop fuel exhausted --
    C11_terminates / C11_atom_in_bounds exclude the other answers for programs of regcomp). *)
